@@ -1,4 +1,5 @@
 //! Generators / writers shared between properties (perf.data, ELF64, Breakpad .sym, …).
+pub mod breakpad_sym;
 pub mod c03_ops;
 pub mod c08;
 pub mod elf;
